@@ -58,6 +58,12 @@ func init() {
 		"(*sync.RWMutex).RUnlock": extNop,
 		"(*sync.Pool).Put":        extNop,
 		"(*sync.Pool).Get":        extPoolGet,
+		"(*sync.Map).Load":          extSyncMapLoad,
+		"(*sync.Map).Store":         extSyncMapStore,
+		"(*sync.Map).LoadOrStore":   extSyncMapLoadOrStore,
+		"(*sync.Map).LoadAndDelete": extSyncMapLoadAndDelete,
+		"(*sync.Map).Delete":        extSyncMapDelete,
+		"(*sync.Map).Range":         extSyncMapRange,
 		"(*sync.Once).Do":         extOnceDo,
 		"(*sync.Once).doSlow":     extOnceDo,
 
@@ -161,6 +167,71 @@ func extPoolGet(fr *frame, args []value) value {
 		}
 	}
 	return iface{}
+}
+
+// sync.Map: an insertion-ordered map from interface keys to interface values
+// per Map object (internally synchronised: no accesses are logged for the
+// race query; Range follows the map-order stub).
+func syncMapOf(fr *frame, recv value) *omap {
+	o := recv.(*value)
+	m := fr.i.syncMaps[o]
+	if m == nil {
+		m = newOmap(types.NewInterfaceType(nil, nil))
+		fr.i.syncMaps[o] = m
+	}
+	return m
+}
+
+func extSyncMapLoad(fr *frame, args []value) value {
+	v, ok := syncMapOf(fr, args[0]).lookup(fr.i.path, args[1])
+	if !ok {
+		return tuple{iface{}, false}
+	}
+	return tuple{v, true}
+}
+
+func extSyncMapStore(fr *frame, args []value) value {
+	syncMapOf(fr, args[0]).insert(fr.i.path, args[1], args[2])
+	return nil
+}
+
+func extSyncMapLoadOrStore(fr *frame, args []value) value {
+	m := syncMapOf(fr, args[0])
+	if v, ok := m.lookup(fr.i.path, args[1]); ok {
+		return tuple{v, true}
+	}
+	m.insert(fr.i.path, args[1], args[2])
+	return tuple{args[2], false}
+}
+
+func extSyncMapLoadAndDelete(fr *frame, args []value) value {
+	m := syncMapOf(fr, args[0])
+	v, ok := m.lookup(fr.i.path, args[1])
+	if !ok {
+		return tuple{iface{}, false}
+	}
+	m.delete(fr.i.path, args[1])
+	return tuple{v, true}
+}
+
+func extSyncMapDelete(fr *frame, args []value) value {
+	syncMapOf(fr, args[0]).delete(fr.i.path, args[1])
+	return nil
+}
+
+func extSyncMapRange(fr *frame, args []value) value {
+	m := syncMapOf(fr, args[0])
+	keys := append([]value{}, m.keys...)
+	vals := append([]value{}, m.vals...)
+	for _, k := range m.order(fr.i.path) {
+		if k >= len(keys) {
+			continue
+		}
+		if r, _ := call(fr.i, fr, token.NoPos, args[1], []value{keys[k], vals[k]}).(bool); !r {
+			break
+		}
+	}
+	return nil
 }
 
 func extOnceDo(fr *frame, args []value) value {
